@@ -85,6 +85,23 @@ def replay(pid, unit, cex, path):
                 bad.append("add_preserves_topk_invariant")
             return bad, path, nat
         return [], path, {"error": "no native replay for heap op %s" % op}
+    if model == "serde":
+        txt = "\n".join(["# engine: M", "exec serde", "doc " + ",".join(cex["doc"]), "b %d" % cex["b"], "len %d" % cex["len"]]) + "\n"
+        nat = mrun.native_exec(txt, path)
+        if nat.get("error"):
+            return [], path, nat
+        names = ["registers", "b", "buildhasher"]
+        complete = sorted(cex["doc"]) == sorted(names) and len(cex["doc"]) == 3
+        valid = complete and 4 <= cex["b"] <= 18 and cex["len"] == (1 << cex["b"])
+        bad = []
+        ok = nat["result"] == "ok"
+        if complete:
+            if ok and not valid: bad.append("accepted_implies_b_in_range_and_len_2_pow_b")
+            if valid and not ok: bad.append("valid_document_is_accepted")
+            if ok and (nat.get("b") != cex["b"] or nat.get("len") != cex["len"]): bad.append("accepted_fields_passed_through")
+        elif ok:
+            bad.append("incomplete_or_duplicate_document_rejected")
+        return bad, path, nat
     if model == "qf":
         from mir2smt.m_qf import enc_py
         bq, br = cex["bq"], cex["br"]
